@@ -96,6 +96,8 @@ def py_data_equals(ft, cv, dv, native):
         return len(cv) == len(dv) and all(py_data_equals(b[1], x, y, native) for x, y in zip(cv, dv))
     if native and (b[0] == 'OID' or b == ('STR', 'UTF8String')):
         return False
+    if b[0] == 'REAL' and isinstance(cv, tuple):
+        return False        # a (mantissa, base, exponent) tuple is compared with the default's float
     return M.values_equal(ft, cv, dv)
 
 
